@@ -57,6 +57,8 @@ type GuardCtx struct {
 	opDepth int
 	pinv    []phiInv
 	pDone   bool
+	imp     []importedUniv
+	impDone bool
 }
 
 // phiInv: at every entry of the loop header, len(slice phi) - int phi == c.
@@ -78,7 +80,25 @@ func (g *GuardCtx) condFacts(cond ssa.Value, truth bool, why string) []Fact {
 		if c.Op == token.NOT {
 			return g.condFacts(c.X, !truth, why)
 		}
+	case *ssa.Call:
+		// a boolean predicate helper of the module: what it tested
+		if b, ok := c.Type().Underlying().(*types.Basic); ok && b.Kind() == types.Bool {
+			mode := "false"
+			if truth {
+				mode = "true"
+			}
+			return g.factsFromCall(c, mode, why)
+		}
 	case *ssa.BinOp:
+		// err == nil / err != nil on the result of a validation helper of the module
+		if ec := errCall(c.X); ec != nil {
+			if k, isC := c.Y.(*ssa.Const); isC && k.Value == nil {
+				if (c.Op == token.EQL && truth) || (c.Op == token.NEQ && !truth) {
+					return g.factsFromCall(ec, "nilerr", why)
+				}
+			}
+			return nil
+		}
 		if !isIntLike(c.X.Type()) || isTimeTime(c.X.Type()) {
 			return nil
 		}
@@ -313,27 +333,48 @@ func (g *GuardCtx) univValid(l *RangeLoop, b *ssa.BasicBlock) bool {
 	if len(d.Preds) == 1 && (d == b || d.Dominates(b)) {
 		return true
 	}
-	hd := l.Header
-	for h := hd.Idom(); h != nil; h = h.Idom() {
-		iff, ok := h.Instrs[len(h.Instrs)-1].(*ssa.If)
+	h, e, key, _, ok := g.univRegion(l, b)
+	if !ok {
+		return false
+	}
+	for h2 := b.Idom(); h2 != nil && h2 != h; h2 = h2.Idom() {
+		iff2, ok := h2.Instrs[len(h2.Instrs)-1].(*ssa.If)
 		if !ok {
 			continue
 		}
-		e := edgeOwner(h, hd)
+		if e2 := edgeOwner(h2, b); e2 == e && g.condKey(iff2.Cond) == key {
+			return true
+		}
+	}
+	return false
+}
+
+// univRegion: the loop l sits inside `if C {...}` (test block h, branch e, stable name key)
+// and every path from the branch entry either leaves the function or goes through the loop's
+// normal exit; region is the set of blocks walked (the part of the branch before the exit).
+// b (may be nil) is a block the test must dominate and that must lie outside the branch.
+func (g *GuardCtx) univRegion(l *RangeLoop, b *ssa.BasicBlock) (h *ssa.BasicBlock, e int, key string, region map[*ssa.BasicBlock]bool, ok bool) {
+	hd := l.Header
+	for h = hd.Idom(); h != nil; h = h.Idom() {
+		iff, isIf := h.Instrs[len(h.Instrs)-1].(*ssa.If)
+		if !isIf {
+			continue
+		}
+		e = edgeOwner(h, hd)
 		if e < 0 {
 			continue
 		}
-		if !h.Dominates(b) {
+		if b != nil && !h.Dominates(b) {
 			continue // an inner test inside the region (e.g. an early error return)
 		}
 		entry := h.Succs[e]
-		if entry == b || entry.Dominates(b) {
+		if b != nil && (entry == b || entry.Dominates(b)) {
 			// same region: every way from the branch entry to b must go through the loop exit
 			continue
 		}
-		key := g.condKey(iff.Cond)
+		key = g.condKey(iff.Cond)
 		if key == "" {
-			return false
+			return nil, 0, "", nil, false
 		}
 		// every path from the branch entry leaves the region only through the loop's header exit
 		seen := map[*ssa.BasicBlock]bool{}
@@ -358,20 +399,11 @@ func (g *GuardCtx) univValid(l *RangeLoop, b *ssa.BasicBlock) bool {
 		}
 		walk(entry)
 		if !okRegion {
-			return false
+			return nil, 0, "", nil, false
 		}
-		for h2 := b.Idom(); h2 != nil && h2 != h; h2 = h2.Idom() {
-			iff2, ok := h2.Instrs[len(h2.Instrs)-1].(*ssa.If)
-			if !ok {
-				continue
-			}
-			if e2 := edgeOwner(h2, b); e2 == e && g.condKey(iff2.Cond) == key {
-				return true
-			}
-		}
-		return false
+		return h, e, key, seen, true
 	}
-	return false
+	return nil, 0, "", nil, false
 }
 
 // intrinsic facts about the symbols of a polynomial at a program point
@@ -528,6 +560,12 @@ func (g *GuardCtx) AllFacts(goal Poly, at ssa.Instruction) []Fact {
 	for _, u := range g.universals() {
 		if g.univValid(u.L, b) {
 			facts = append(facts, u.F)
+		}
+	}
+	// universal facts established by validation helpers that returned no error
+	for _, iu := range g.importedUnivs() {
+		if g.importedValid(iu, b) {
+			facts = append(facts, iu.F)
 		}
 	}
 	// intrinsic facts for the symbols of the goal and of the facts so far
